@@ -95,6 +95,20 @@ def quaternion_metrics(chk, prog):
         shortcut_rule(chk, prog, f, q1, q2)
 
 
+def metric_twins(chk, prog):
+    """single vs batch arms of the four quaternion metrics on free (non-normalised) rows (shared with C07)"""
+    for name in QMETRICS:
+        f = prog.func(MET + "::" + name)
+        chk.touch(f)
+        run = lambda a, b, f=f: Interp(prog, oracle=no_shortcut).run(f, [a.copy(), b.copy()])
+
+        def twin(f=f, run=run):
+            a1, a2, b1, b2 = sym_vec("fa", 4), sym_vec("fb", 4), sym_vec("fc", 4), sym_vec("fd", 4)
+            got = to_obj(Interp(prog, oracle=no_shortcut).run(f, [np.vstack([a1, b1]), np.vstack([a2, b2])]))
+            return all_of(eq(got[0], run(a1, a2), "batch row 0"), eq(got[1], run(b1, b2), "batch row 1"))
+        chk.ob("TWIN.metric", f.ref, "batch arm row == single arm (non-normalised rows)", twin, module=MET, function=name, construct="single vs batch", line=f.node.lineno)
+
+
 def shortcut_rule(chk, prog, f, q1, q2):
     conds = []
 
